@@ -39,6 +39,14 @@ fn session_id(m: &DiameterMessage) -> String {
 async fn handler(req: DiameterMessage, dict: Arc<Dictionary>, seen: Arc<Mutex<Vec<String>>>) -> diameter::Result<DiameterMessage> {
     let sid = session_id(&req);
     seen.lock().unwrap().push(sid.clone());
+    if sid.starts_with("PANICF") {
+        // a panic whose payload is a formatted String (what unwrap(), expect(), assert_eq!, panic!("{}") produce), not a &'static str
+        panic!("handler panic requested by the scenario for session {}", sid);
+    }
+    if sid.starts_with("PANICU") {
+        let r: std::result::Result<u32, String> = Err(format!("no such thing: {}", sid));
+        let _ = r.unwrap();
+    }
     if sid.starts_with("PANIC") {
         panic!("handler panic requested by the scenario");
     }
@@ -119,6 +127,14 @@ fn request(dict: &Arc<Dictionary>, sid: &str, hop: u32) -> Vec<u8> {
     let mut m = DiameterMessage::new(CommandCode::CreditControl, ApplicationId::CreditControl, 0x80, hop, hop ^ 0x5555, Arc::clone(dict));
     m.add_avp(263, None, M, UTF8String::new(sid).into());
     m.add_avp(264, None, M, Identity::new("client.example.com").into());
+    // requests carry a Grouped AVP two levels deep, as real Credit-Control requests do (Multiple-Services-Credit-Control
+    // { Requested-Service-Unit { CC-Total-Octets } })
+    let mut rsu = Grouped::new(vec![], Arc::clone(dict));
+    rsu.add_avp(421, None, M, Unsigned64::new(hop as u64).into());
+    let mut mscc = Grouped::new(vec![], Arc::clone(dict));
+    mscc.add_avp(437, None, M, rsu.into());
+    mscc.add_avp(432, None, M, Unsigned32::new(hop).into());
+    m.add_avp(456, None, M, mscc.into());
     let mut b = Vec::new();
     m.encode_to(&mut b).expect("encode request");
     b
@@ -498,6 +514,8 @@ async fn faulty_peer(addr: std::net::SocketAddr, tls: bool, dict: Arc<Dictionary
                     let _ = c.write_all(&f).await;
                 }
                 "handler-panic" => { let _ = c.write_all(&request(&dict, "PANIC-now", 2)).await; }
+                "handler-panic-fmt" => { let _ = c.write_all(&request(&dict, "PANICF-now", 2)).await; }
+                "handler-panic-unwrap" => { let _ = c.write_all(&request(&dict, "PANICU-now", 2)).await; }
                 "handler-panic-sync" => { let _ = c.write_all(&request(&dict, "SYNCPANIC-now", 2)).await; }
                 "announce-leave" => {
                     // announces the largest legal frame (1 MiB), sends a few octets of it and goes away
